@@ -76,6 +76,12 @@ def gen_rx(seed, opts=None):
             ia['pub'] = gen_obs(rng, 'c') if rng.random() < 0.75 else None
             ia['resp_observer'] = ia['pub'] is not None or rng.random() < 0.5
             ia['resp_limit'] = _pick(rng, [(2, MAXN), (1, 1), (1, 2), (1, 5)])
+        if kind in ('rr', 'stream', 'channel') and rng.random() < 0.3:
+            # adapter on the handler side only: the requester drives the core API directly
+            ia['client_api'] = 'core'
+            if kind == 'channel' and ia.get('pub'):
+                ia['pub']['src'] = _pick(rng, [(2, 'manual'), (2, 'gen'), (1, 'agen')])
+                ia['pub']['end'] = _pick(rng, [(1, 'flag'), (1, 'separate')])
         if kind in ('stream', 'channel'):
             ia['limit'] = _pick(rng, [(2, MAXN), (2, 1), (1, 2), (1, 3), (1, rng.randint(4, 20))])
             if rng.random() < 0.2:
@@ -265,6 +271,19 @@ def _run(world, plan):
     def issue(ia):
         c = world.rx_client
         iid, kind = ia['id'], ia['kind']
+        if ia.get('client_api') == 'core':
+            core = {'id': iid, 'kind': kind, 'by': 'client', 'req': {'dlen': ia['req']['dlen'], 'mlen': None}}
+            if kind in ('stream', 'channel'):
+                lim = ia.get('limit', MAXN)
+                core['sub'] = {'initial_n': lim, 'refill': [lim]}
+                if ia.get('dispose_after'):
+                    core['sub']['cancel_after'] = ia['dispose_after']
+                elif ia.get('dispose_at') is not None:
+                    core['sub']['cancel_at'] = ia['dispose_at']
+            if kind == 'channel':
+                core['pub'] = dict(ia['pub']) if ia.get('pub') else None
+            app.start_interaction(world, 'client', core)
+            return
         world.rec('act', ep='client', what='request', iid=iid, kind=kind)
         try:
             if kind == 'push':
@@ -340,6 +359,8 @@ def oracle_c20(world):
             return [], None
         start = sc.get('start_idx', 0)
         err = sc.get('error_at')
+        if err is not None and err >= sc['count'] > 0 and sc.get('end') == 'flag':
+            err = None  # core publisher whose last element carried the complete flag: it ended before the error
         n = sc['count'] if err is None else min(sc['count'], err)
         res = []
         for k in range(n):
@@ -379,6 +400,18 @@ def oracle_c20(world):
             if late:
                 V('signal_after_dispose', 'interaction %d: %s after the result observable was disposed' % (iid, late[0]['cb']),
                   late[0]['seq'], **facts)
+        if kind == 'rr' and ia.get('client_api') == 'core':
+            # core requester: the awaitable's outcome plays the observer's role
+            futs = [e for e in hb if e['k'] == 'fut' and e.get('iid') == iid and e['role'] == 'requester']
+            delivered, term = [], None
+            if futs:
+                f0 = futs[0]
+                if f0['state'] == 'result':
+                    if f0['data'] or f0['metadata']:
+                        delivered = [(f0['data'], f0['metadata'])]
+                    term = {'cb': 'on_complete', 'seq': f0['seq']}
+                elif f0['state'] == 'exception':
+                    term = {'cb': 'on_error', 'err': f0.get('err', ''), 'seq': f0['seq']}
         if kind == 'rr':
             mode = ia['resp']['mode']
             if mode == 'value':
